@@ -6,3 +6,4 @@ pub mod mutate;
 pub mod props;
 pub mod refimpl;
 pub mod runner;
+pub mod tapx;
